@@ -353,6 +353,23 @@ theorem send_under_lock_never_blocks (c : Cfg) (ops : List Op) (s s' : State) (h
   simp [curCount, hc] at h
   exact ⟨by omega, by omega⟩
 
+/-- **in_flight_bounded.** Sequence numbers handed out run at most `Workers` ahead of the commit
+    sequence: never more than `Workers` batches are sealed and uncommitted. -/
+theorem in_flight_bounded (c : Cfg) (ops : List Op) (s : State) (hr : Run c ops s) :
+    s.outSeq ≤ s.commitSeq + c.workers ∧ s.full.length ≤ c.workers := by
+  have h := reachable_pool c s (run_reachable hr)
+  have hc := (reachable_inv c s (run_reachable hr)).count
+  unfold PoolInv at h
+  omega
+
+/-- **uncommitted_events_bounded.** With a count limit, the events held in sealed, uncommitted
+    batches never exceed `Workers * maxCount`, for every interleaving and completion order. -/
+theorem uncommitted_events_bounded (c : Cfg) (ops : List Op) (s : State) (hr : Run c ops s)
+    (hm : c.maxCount ≠ 0) : (s.full.flatMap (·.evs)).length ≤ c.workers * c.maxCount := by
+  have h1 := flatMap_evs_le c.maxCount s.full (fun b hb => (size_bounds c ops s hr b hb).2.1 hm)
+  have h2 := (in_flight_bounded c ops s hr).2
+  exact Nat.le_trans h1 (Nat.mul_le_mul_right _ h2)
+
 example : ∃ s, Run cfg2 [.add e1 0 0, .add e2 1 1, .sealB, .add e3 2 2, .add e4 3 3] s ∧
     s.free = 0 ∧ s.cur.isSome ∧ s.full.length = 1 ∧ (step? cfg2 s .sealB).isSome :=
   ⟨_, rfl, by decide, by decide, by decide, by decide⟩
